@@ -28,6 +28,7 @@ META = {
                   "child objects are SDK internals outside the model — the harness re-verifies every stored child independently (ID, size, checksum, signature) instead; "
                   "(3) trusted-path ties use containers without EC rules and requests without session tokens; V2 session tokens and the N3 scheme are modelled but not tied; "
                   "(4) quota arithmetic ignores uint64 wrap; (5) premise: the header object passed to Streamer.Init carries no payload (true for the only production caller). "
+                  "(6) the executable reference stored_okb evaluated by the check is not proved equal to the Prop stored_ok of the theorems (it shares check_expiration, check_ec_part and authenticate with the proved lemmas). "
                   "Runtime behaviour not modelled: placement/broadcast to other nodes (C25), concurrency of the EC part writers.",
     "trusted_base": ["Coq 8.16.1 kernel, vm_compute", "model ObjFmt/Model.v hand-written, tied by differential check", "abstraction of real objects into model objects by harness/cmd/objfmt (gen.go: abstract)",
                      "harness/cmd/objfmt, harness/lib/putfake, lib/vlib.py"],
@@ -134,12 +135,12 @@ def run(ctx):
         rp = json.load(open(ctx.replay))
         cases = [v["case"] for v in rp.get("violations", []) if "case" in v]
         # re-run the same seed and pick the cases again (the harness is deterministic per seed)
-        n = 200 if rp.get("tier", "quick") == "quick" else 3000
+        n = 160 if rp.get("tier", "quick") == "quick" else 800
         allc = ctx.run_json([binp, "cases", str(n)], env={"VERIF_SEED": str(rp.get("seed", ctx.seed))})
         idxs = [v.get("index") for v in rp.get("violations", []) if v.get("index") is not None]
         cases = [allc[i] for i in idxs if i < len(allc)] or cases
     else:
-        n = 200 if ctx.tier == "quick" else 3000
+        n = 160 if ctx.tier == "quick" else 800
         cases = ctx.run_json([binp, "cases", str(n)])
     ctx.n_cases = n if not ctx.replay else 0
     if not model:
@@ -149,7 +150,7 @@ def run(ctx):
     rows = "[%s]" % ";".join("(%d,%d,%s,%s,%s)" % (r[0], r[1], cbool(r[2]), cbool(r[3]), cbool(r[4])) for r in consts["versions"])
     nv = consts["nil_version"]
     jobs = [("ver", PRELUDE, {"ver": "ver_mismatches %s (%s,%s,%s)" % (rows, cbool(nv[0]), cbool(nv[1]), cbool(nv[2]))})]
-    CH = 24
+    CH = 60
     offs = []
     for off in range(0, len(cases), CH):
         lit = "[%s]" % ";\n".join(ccase(c) for c in cases[off:off + CH])
